@@ -6,6 +6,10 @@
 // indexed by my own enumeration (c02_model.h); for stream-backed data the raw bytes are decoded by an independent
 // reader as soon as the write call has returned (flush-after-write and on-disk layout).  Header round trips and
 // out-of-range requests (asserts switched off = Release behaviour) are operations of the same history.
+// File-backed cases also keep LONG-LIVED objects open on the same file (opened once after the first contents exist, never
+// re-opened): readers and second writers, each with its own stream.  Operations "read item X through object R" / "write
+// item X through object W" are addressed relative to the place where an object's previous read ended (next / same /
+// previous / far item in the FILE), so that "R reads k, W writes k+1, R reads k+1" and its variants are frequent.
 #include "verif.h"
 #include "stir_gen.h"
 #include "c02_model.h"
@@ -105,8 +109,48 @@ enum Op
   R_ALL = 18,
   E_OOB = 20,
   H_HEADER = 30,
-  H_WRITE_TO_FILE = 31
+  H_WRITE_TO_FILE = 31,
+  X_READ = 40, // one item through one of the long-lived objects (or the object under test), file-relative addressing
+  X_WRITE = 41 // one item through the object under test or a long-lived second writer, file-relative addressing
 };
+
+// long-lived objects on the same file (c["readers"]): how they are opened
+enum PeerKind
+{
+  PK_MAIN = -1,     // the object under test itself
+  PK_HDR_RO = 0,    // ProjData::read_from_file(header)                      (std::ios::in)
+  PK_STREAM_RO = 1, // ProjDataFromStream on its own std::fstream            (in | binary)
+  PK_HDR_RW = 2,    // ProjData::read_from_file(header, in | out): a second writer
+  PK_STREAM_RW = 3  // ProjDataFromStream on its own std::fstream            (in | out | binary): a second writer
+};
+const char* const peer_kind_names[] = { "object under test", "long-lived read_from_file(header)", "long-lived ProjDataFromStream on its own ifstream",
+                                        "long-lived read_from_file(header, in|out)", "long-lived ProjDataFromStream on its own fstream (in|out)" };
+
+// item kinds of the X_ operations
+enum ItemKind
+{
+  IK_BIN = 0,
+  IK_VIEWGRAM = 1,
+  IK_SINOGRAM = 2,
+  IK_SEG_VIEW = 3,
+  IK_SEG_SINO = 4,
+  IK_RELATED = 5,
+  N_ITEM_KINDS = 6
+};
+const char* const item_kind_names[] = { "bin", "viewgram", "sinogram", "segment by view", "segment by sinogram", "related viewgrams" };
+
+// addressing modes of the X_ operations: absolute, or relative to the last item another (or the same) object touched
+enum AddrMode
+{
+  AM_ABS = 0,  // coordinates from the op's arguments
+  AM_NEXT = 1, // the item containing the bin that directly FOLLOWS the target object's last item in the file
+  AM_SAME = 2, // the item containing the first bin of the target object's last item
+  AM_PREV = 3, // the item containing the bin directly in front of the target object's last item
+  AM_FAR = 4,  // half the file away
+  AM_NEXT2 = 5, // one item of the same size further than AM_NEXT (k+2)
+  N_ADDR_MODES = 6
+};
+const char* const addr_mode_names[] = { "absolute", "next in file", "same place", "previous in file", "far away", "next but one in file" };
 
 // read-back paths for the whole data set
 enum Path
@@ -264,6 +308,36 @@ struct Run
   std::vector<std::size_t> iter_pos_to_idx; // learned position->bin map of begin_all() iteration (memory)
   long nwrites = 0;
 
+  // ---- objects on the same file that live as long as the history (peers[0] is the object under test) ---------------
+  // Sharing a file between objects: the class documentation of ProjDataFromStream promises "At the end of every write
+  // (i.e., set_*) operation, the stream is flushed such that subsequent read operations from the same file will be able
+  // [to see] this data even if the stream isn't closed yet" (ProjDataFromStream.h:46-49), and ProjData::read_from_file takes
+  // an open mode (ProjData.h:112; in|out is how the utilities update a file in place).  Nothing documents that a second
+  // object on the same file is unsupported; every call here returns before the next one (of any object) starts.
+  struct Peer
+  {
+    shared_ptr<ProjData> p;
+    ProjDataFromStream* f = nullptr;
+    int kind = PK_MAIN;
+    bool can_read = true, can_write = false;
+    // harness-side bookkeeping (bytes of the data stream, from c02::byte_pos): the last single item this object touched
+    long cur_start = 0, cur_end = 0;
+    bool exact = false;  // its stream really stands at cur_end after a single-item READ (nothing else used it since)
+    bool wrote_last = false; // its last use was a single-item WRITE of cur_start..cur_end
+    long read_clock = 0; // event number of that read
+    long run_clock = 0;  // event number of the first read of the current run of reads that each began where the previous ended
+  };
+  std::vector<Peer> peers;
+  struct BinC
+  {
+    int s, a, v, t, k;
+  };
+  std::vector<BinC> pos2bin;        // element number in the stream -> bin (inverse of c02::byte_pos)
+  std::vector<float> shadow;        // reference before the last write (to find the bins a write changed)
+  std::vector<long> written_clock;  // per bin (reference index): event number of the last write that changed it
+  std::vector<int> written_by;      // ... and the peer that wrote it
+  long clock_ = 0;
+
   explicit Run(const json& cc) : c(cc) {}
   const Geo& geo() const { return *geo_p; }
   bool is_float_like() const { return backing == B_MEM || !L.td().integer; }
@@ -307,9 +381,26 @@ struct Run
 
   // ---- reading everything through one path --------------------------------------------------------
   Result read_all(ProjData& r, int& path, std::vector<float>& got, const std::string& after);
-  Result compare_all(int sel, const std::string& after);
+  Result compare_object(ProjData& r, int path, const std::string& how);
+  Result compare_all(int sel, const std::string& after, bool allow_long_lived = false);
   Result check_bytes(const std::string& after);
   Result after_write(const json& op, const std::string& what);
+  void mark_written(int peer);
+
+  // ---- long-lived objects on the same file ----------------------------------------------------------
+  Result open_peers();
+  struct Item
+  {
+    int kind;
+    int s, a, v, t, k;     // the coordinates the kind uses
+    long start, end;       // first byte of its first bin, one past the last byte of its last bin
+    std::size_t first_idx; // reference index of its first bin
+  };
+  Item resolve_item(int kind, int mode, const Peer& target, const json& op) const;
+  //! slot 0 is the object under test, slots 1..3 the long-lived objects (modulo how many there are)
+  std::size_t slot_to_peer(long slot) const { return slot == 0 || peers.size() < 2 ? 0 : 1 + std::size_t(slot - 1) % (peers.size() - 1); }
+  Result op_xread(const json& op, std::size_t opno, const std::string& tag);
+  Result op_xwrite(const json& op, std::size_t opno, const std::string& tag);
 
   // ---- operations ---------------------------------------------------------------------------------
   Result run_op(const json& op, std::size_t opno);
@@ -513,7 +604,97 @@ Run::setup()
           vf::stats().count("PET symmetries not constructible, trivial used");
         }
     }
+  shadow = ref;
+  written_clock.assign(g.n, 0);
+  written_by.assign(g.n, 0);
+  return open_peers();
+}
+
+// ---- long-lived objects on the same file ------------------------------------------------------------
+// Opened ONCE, after the file has its full length (prefilled raw file / initial fill of a new Interfile pair), while the
+// writer is alive and unclosed, and kept open for the rest of the history.
+Result
+Run::open_peers()
+{
+  const Geo& g = geo();
+  Peer self;
+  self.p = pd;
+  self.f = pdfs;
+  self.kind = PK_MAIN;
+  self.can_read = readable;
+  self.can_write = true;
+  self.cur_start = self.cur_end = L.offset;
+  peers.push_back(self);
+  if (!file_backed())
+    return Result::pass();
+  // element number in the stream -> bin, by inverting my own layout function
+  pos2bin.assign(g.n, BinC{ 0, 0, 0, 0, 0 });
+  std::vector<char> hit(g.n, 0);
+  for (int s = g.min_seg; s <= g.max_seg; ++s)
+    for (int a = g.minax(s); a <= g.maxax(s); ++a)
+      for (int v = g.min_view; v <= g.max_view; ++v)
+        for (int t = g.min_tang; t <= g.max_tang; ++t)
+          for (int k = g.min_tof; k <= g.max_tof; ++k)
+            {
+              const std::size_t e = (c02::byte_pos(g, L, s, a, v, t, k) - std::size_t(L.offset)) / L.elsize();
+              if (e >= g.n || hit[e])
+                throw std::logic_error("C02 harness: layout function is not a bijection");
+              hit[e] = 1;
+              pos2bin[e] = BinC{ s, a, v, t, k };
+            }
+  if (!c.contains("readers"))
+    return Result::pass();
+  const NumericType nt(L.td().id);
+  const ByteOrder bo(L.big_endian ? ByteOrder::big_endian : ByteOrder::little_endian);
+  for (const auto& jk : c["readers"])
+    {
+      if (peers.size() >= 4)
+        break;
+      int kind = int(jk.get<long>() % 4);
+      // raw streams that cannot have a header (TOF + Segment_AxialPos_View_TangPos): the stream kinds instead
+      if (!has_header && kind == PK_HDR_RO)
+        kind = PK_STREAM_RO;
+      if (!has_header && kind == PK_HDR_RW)
+        kind = PK_STREAM_RW;
+      Peer q;
+      q.kind = kind;
+      q.can_read = true;
+      q.can_write = kind == PK_HDR_RW || kind == PK_STREAM_RW;
+      q.cur_start = q.cur_end = L.offset;
+      if (kind == PK_HDR_RO || kind == PK_HDR_RW)
+        {
+          q.p = ProjData::read_from_file(header_path, kind == PK_HDR_RW ? (std::ios::in | std::ios::out) : std::ios::in);
+          VF_CHECK(!is_null_ptr(q.p), "opening a ", peer_kind_names[kind + 1], ": read_from_file returned null");
+        }
+      else
+        {
+          const std::ios::openmode mode
+              = kind == PK_STREAM_RW ? (std::ios::in | std::ios::out | std::ios::binary) : (std::ios::in | std::ios::binary);
+          shared_ptr<std::iostream> fs(new std::fstream(data_path.c_str(), mode));
+          if (!*fs)
+            throw std::runtime_error("C02 harness: cannot open " + data_path + " for a long-lived object");
+          q.p.reset(new ProjDataFromStream(exam, pdi, fs, std::streamoff(L.offset), L.seq, stir_order(), nt, bo, L.scale));
+        }
+      q.f = dynamic_cast<ProjDataFromStream*>(q.p.get());
+      VF_CHECK(q.f != nullptr, "a ", peer_kind_names[kind + 1], " is not a ProjDataFromStream");
+      peers.push_back(q);
+      vf::stats().count(std::string("opened: ") + peer_kind_names[kind + 1]);
+    }
   return Result::pass();
+}
+
+// the bins a write changed get the current event number and the writer (statistics of the interleavings only)
+void
+Run::mark_written(int peer)
+{
+  ++clock_;
+  for (std::size_t i = 0; i < ref.size(); ++i)
+    if (std::memcmp(&ref[i], &shadow[i], sizeof(float)) != 0)
+      {
+        written_clock[i] = clock_;
+        written_by[i] = peer;
+      }
+  shadow = ref;
 }
 
 // ---- whole-data read back -------------------------------------------------------------------------
@@ -662,28 +843,12 @@ Run::read_all(ProjData& r, int& path, std::vector<float>& got, const std::string
 }
 
 Result
-Run::compare_all(int sel, const std::string& after)
+Run::compare_object(ProjData& r, int path, const std::string& how)
 {
   const Geo& g = geo();
-  int path = sel % N_PATHS;
-  bool second = (sel / N_PATHS) % 3 == 0; // a third of the read-backs use a second object on the same file
-  if (!readable)
-    second = true;
-  if (second && !can_second_reader())
-    second = false; // (raw streams without header; write-only data always have a header)
-  shared_ptr<ProjData> other;
-  ProjData* r = pd.get();
-  std::string how = after;
-  if (second)
-    {
-      other = second_reader();
-      r = other.get();
-      how += " [second object from read_from_file]";
-      vf::stats().count("read-backs through a second object on the same file");
-    }
   std::vector<float> got;
-  C02_TRY(read_all(*r, path, got, how));
-  VF_CHECK(r->size_all() == g.n, how, ": size_all() ", r->size_all(), " expected ", g.n);
+  C02_TRY(read_all(r, path, got, how));
+  VF_CHECK(r.size_all() == g.n, how, ": size_all() ", r.size_all(), " expected ", g.n);
   for (int s = g.min_seg; s <= g.max_seg; ++s)
     for (int a = g.minax(s); a <= g.maxax(s); ++a)
       for (int v = g.min_view; v <= g.max_view; ++v)
@@ -698,6 +863,40 @@ Run::compare_all(int sel, const std::string& after)
             }
   vf::stats().count(std::string("full read-backs via ") + path_names[path]);
   return Result::pass();
+}
+
+Result
+Run::compare_all(int sel, const std::string& after, bool allow_long_lived)
+{
+  int path = sel % N_PATHS;
+  const int who = (sel / N_PATHS) % 3;
+  bool second = who == 0; // a third of the read-backs use a second object (freshly opened) on the same file
+  // another third goes through one of the long-lived objects when the history has them (after the writes of the
+  // original operations and at the end of the history)
+  if (allow_long_lived && who == 1 && peers.size() > 1)
+    {
+      Peer& q = peers[1 + std::size_t(sel / (3 * N_PATHS) + nwrites) % (peers.size() - 1)];
+      q.exact = q.wrote_last = false;
+      vf::stats().count("full read-backs through a long-lived object on the same file");
+      return compare_object(*q.p, path, vf::cat(after, " [", peer_kind_names[q.kind + 1], ", opened at the start of the history]"));
+    }
+  if (!readable)
+    second = true;
+  if (second && !can_second_reader())
+    second = false; // (raw streams without header; write-only data always have a header)
+  shared_ptr<ProjData> other;
+  ProjData* r = pd.get();
+  std::string how = after;
+  if (second)
+    {
+      other = second_reader();
+      r = other.get();
+      how += " [second object from read_from_file]";
+      vf::stats().count("read-backs through a second object on the same file");
+    }
+  else if (!peers.empty())
+    peers[0].exact = peers[0].wrote_last = false;
+  return compare_object(*r, path, how);
 }
 
 // ---- the independent reader of the raw bytes ----------------------------------------------------
@@ -751,8 +950,9 @@ Result
 Run::after_write(const json& op, const std::string& what)
 {
   ++nwrites;
+  mark_written(0);
   C02_TRY(check_bytes(what));
-  return compare_all(op[7].get<int>(), what);
+  return compare_all(op[7].get<int>(), what, true);
 }
 
 // ---- iteration order of ProjDataInMemory::begin_all() ----------------------------------------------
@@ -829,6 +1029,12 @@ Run::run_op(const json& op, std::size_t opno)
   vf::SplitMix rng(c["seed"].get<uint64_t>() * 1000003ULL + uint64_t(V) * 7919ULL + opno);
   const std::string tag = vf::cat("op#", opno, " code ", code);
   vf::stats().count(vf::cat("op ", code < 10 ? "0" : "", code));
+  if (code == X_READ)
+    return op_xread(op, opno, tag);
+  if (code == X_WRITE)
+    return op_xwrite(op, opno, tag);
+  if (!peers.empty())
+    peers[0].exact = peers[0].wrote_last = false; // every other operation uses the stream of the object under test
   // reads go through the object itself, or through a second object on the same file for write-only data
   shared_ptr<ProjData> other_reader;
   auto reader = [&]() -> ProjData* {
@@ -1178,6 +1384,332 @@ Run::op_subset(ProjData& r, const json& op, const std::string& tag)
   return Result::pass();
 }
 
+// ---- single items through the long-lived objects, addressed relative to the FILE ----------------------
+// V = peer + 4*kind + 32*mode + 256*target (+ 1024: target = the object that does this operation, whatever slot it
+// came from).  "peer" does the read/write, "target" is the object whose last item the relative modes refer to.  All numbers are taken modulo what exists, so every (sub)sequence is valid.
+Run::Item
+Run::resolve_item(int kind, int mode, const Peer& target, const json& op) const
+{
+  const Geo& g = geo();
+  BinC b;
+  if (mode == AM_ABS)
+    {
+      b.s = g.min_seg + int(op[1].get<long>() % g.nseg());
+      b.a = g.minax(b.s) + int(op[2].get<long>() % g.nax(b.s));
+      b.v = g.min_view + int(op[3].get<long>() % g.nviews());
+      b.t = g.min_tang + int(op[4].get<long>() % g.ntang());
+      b.k = g.min_tof + int(op[5].get<long>() % g.ntof());
+    }
+  else
+    {
+      const long el = long(L.elsize()), n = long(g.n);
+      const long e_start = (target.cur_start - L.offset) / el, e_end = (target.cur_end - L.offset) / el;
+      long e = 0;
+      switch (mode)
+        {
+        case AM_NEXT:
+          e = e_end;
+          break;
+        case AM_SAME:
+          e = e_start;
+          break;
+        case AM_PREV:
+          e = e_start - 1;
+          break;
+        case AM_NEXT2:
+          e = e_end + (e_end - e_start);
+          break;
+        default:
+          e = e_end + n / 2 + op[1].get<long>() % 7;
+          break;
+        }
+      e = ((e % n) + n) % n; // (behind the last item: the first one, and vice versa)
+      b = pos2bin[std::size_t(e)];
+    }
+  Item it;
+  it.kind = kind;
+  it.s = b.s;
+  it.a = b.a;
+  it.v = b.v;
+  it.t = b.t;
+  it.k = b.k;
+  // first and last bin of the item: every layout is monotone in each of axial position, view and tangential position
+  int a0 = b.a, a1 = b.a, v0 = b.v, v1 = b.v, t0 = g.min_tang, t1 = g.max_tang;
+  switch (kind)
+    {
+    case IK_BIN:
+      t0 = t1 = b.t;
+      break;
+    case IK_VIEWGRAM:
+    case IK_RELATED:
+      a0 = g.minax(b.s);
+      a1 = g.maxax(b.s);
+      break;
+    case IK_SINOGRAM:
+      v0 = g.min_view;
+      v1 = g.max_view;
+      break;
+    default:
+      a0 = g.minax(b.s);
+      a1 = g.maxax(b.s);
+      v0 = g.min_view;
+      v1 = g.max_view;
+      break;
+    }
+  it.start = long(c02::byte_pos(g, L, b.s, a0, v0, t0, b.k));
+  it.end = long(c02::byte_pos(g, L, b.s, a1, v1, t1, b.k) + L.elsize());
+  it.first_idx = g.idx(b.s, a0, v0, t0, b.k);
+  return it;
+}
+
+Result
+Run::op_xread(const json& op, std::size_t opno, const std::string& tag)
+{
+  if (!file_backed() || peers.empty())
+    return Result::pass();
+  const Geo& g = geo();
+  const long V = op[6].get<long>();
+  std::size_t pi = slot_to_peer(V % 4);
+  for (std::size_t tries = 0; tries < peers.size() && !peers[pi].can_read; ++tries)
+    pi = (pi + 1) % peers.size(); // (write-only object under test: the next object)
+  if (!peers[pi].can_read)
+    return Result::pass();
+  Peer& q = peers[pi];
+  const int kind = int((V / 4) % 8) % N_ITEM_KINDS;
+  const int mode = int((V / 32) % 8) % N_ADDR_MODES;
+  const std::size_t ti = (V / 1024) % 2 ? pi : slot_to_peer((V / 256) % 4);
+  const Peer& target = peers[ti];
+  const Item it = resolve_item(kind, mode, target, op);
+  const int s = it.s, a = it.a, v = it.v, t = it.t, k = it.k;
+
+  // statistics of the interleaving (not part of the oracle)
+  const bool continues = q.exact && it.start == q.cur_end;
+  const bool fresh_bytes = written_clock[it.first_idx] > q.read_clock && written_by[it.first_idx] != int(pi);
+  const bool fresh_in_run = written_clock[it.first_idx] > q.run_clock && written_by[it.first_idx] != int(pi);
+  auto& st = vf::stats();
+  st.count(std::string("item reads through: ") + peer_kind_names[q.kind + 1]);
+  st.count(std::string("item reads of kind: ") + item_kind_names[kind] + " / " + addr_mode_names[mode]);
+  if (continues)
+    st.count("item reads starting exactly where the same object's previous read ended");
+  if (continues && fresh_bytes)
+    st.count("... of which over bytes ANOTHER object wrote in between (reader reads k, writer writes k+1, reader reads k+1)");
+  if (continues && fresh_in_run && !fresh_bytes)
+    st.count("... of which over bytes ANOTHER object wrote earlier during this run of sequential reads (reader reads k, writer writes k+2, reader reads k+1, k+2)");
+  if (q.exact && it.start == q.cur_start && fresh_bytes)
+    st.count("item re-read by the same object after ANOTHER object overwrote it");
+  if (pi == 0 && fresh_bytes)
+    st.count("object under test reads an item another object wrote");
+  if (pi != ti && mode != AM_ABS && mode != AM_FAR)
+    st.count("item reads next to the last item of a DIFFERENT object");
+
+  const std::string where
+      = vf::cat(tag, " read ", item_kind_names[kind], " (seg=", s, ",ax=", a, ",view=", v, ",tang=", t, ",tof=", k, ") [", addr_mode_names[mode],
+                "] through peer ", pi, " = ", peer_kind_names[q.kind + 1], " (bytes ", it.start, "..", it.end, "; this object's previous item: bytes ",
+                q.cur_start, "..", q.cur_end, q.exact ? ", a read" : "", continues && fresh_in_run ? "; another object wrote these bytes since" : "",
+                "; backing ", backing_names[backing], ", order ", L.order, ", type ", L.td().name, ")");
+  ProjData& r = *q.p;
+  bool exact_after = true;
+  switch (kind)
+    {
+    case IK_BIN: {
+      const float x = q.f->get_bin_value(Bin(s, v, a, t, k));
+      VF_CHECK(x == ref[g.idx(s, a, v, t, k)], where, ": get_bin_value = ", x, ", reference has ", ref[g.idx(s, a, v, t, k)]);
+      break;
+    }
+    case IK_VIEWGRAM: {
+      const Viewgram<float> vw = V % 2 ? r.get_viewgram(v, s, false, k) : r.get_viewgram(ViewgramIndices(v, s, k));
+      VF_CHECK(vw.get_view_num() == v && vw.get_segment_num() == s && vw.get_timing_pos_num() == k, where, ": viewgram labelled differently");
+      for (int aa = g.minax(s); aa <= g.maxax(s); ++aa)
+        for (int tt = g.min_tang; tt <= g.max_tang; ++tt)
+          VF_CHECK(vw[aa][tt] == ref[g.idx(s, aa, v, tt, k)], where, ": get_viewgram: bin ", g.name(s, aa, v, tt, k), " = ", vw[aa][tt],
+                   ", reference has ", ref[g.idx(s, aa, v, tt, k)]);
+      break;
+    }
+    case IK_SINOGRAM: {
+      const Sinogram<float> sn = V % 2 ? r.get_sinogram(a, s, false, k) : r.get_sinogram(SinogramIndices(a, s, k));
+      VF_CHECK(sn.get_axial_pos_num() == a && sn.get_segment_num() == s && sn.get_timing_pos_num() == k, where, ": sinogram labelled differently");
+      for (int vv = g.min_view; vv <= g.max_view; ++vv)
+        for (int tt = g.min_tang; tt <= g.max_tang; ++tt)
+          VF_CHECK(sn[vv][tt] == ref[g.idx(s, a, vv, tt, k)], where, ": get_sinogram: bin ", g.name(s, a, vv, tt, k), " = ", sn[vv][tt],
+                   ", reference has ", ref[g.idx(s, a, vv, tt, k)]);
+      break;
+    }
+    case IK_SEG_VIEW: {
+      const SegmentByView<float> sg = V % 2 ? r.get_segment_by_view(s, k) : r.get_segment_by_view(SegmentIndices(s, k));
+      VF_CHECK(sg.get_segment_num() == s && sg.get_timing_pos_num() == k, where, ": segment labelled differently");
+      for (int vv = g.min_view; vv <= g.max_view; ++vv)
+        for (int aa = g.minax(s); aa <= g.maxax(s); ++aa)
+          for (int tt = g.min_tang; tt <= g.max_tang; ++tt)
+            VF_CHECK(sg[vv][aa][tt] == ref[g.idx(s, aa, vv, tt, k)], where, ": get_segment_by_view: bin ", g.name(s, aa, vv, tt, k), " = ",
+                     sg[vv][aa][tt], ", reference has ", ref[g.idx(s, aa, vv, tt, k)]);
+      break;
+    }
+    case IK_SEG_SINO: {
+      const SegmentBySinogram<float> sg = V % 2 ? r.get_segment_by_sinogram(s, k) : r.get_segment_by_sinogram(SegmentIndices(s, k));
+      VF_CHECK(sg.get_segment_num() == s && sg.get_timing_pos_num() == k, where, ": segment labelled differently");
+      for (int aa = g.minax(s); aa <= g.maxax(s); ++aa)
+        for (int vv = g.min_view; vv <= g.max_view; ++vv)
+          for (int tt = g.min_tang; tt <= g.max_tang; ++tt)
+            VF_CHECK(sg[aa][vv][tt] == ref[g.idx(s, aa, vv, tt, k)], where, ": get_segment_by_sinogram: bin ", g.name(s, aa, vv, tt, k), " = ",
+                     sg[aa][vv][tt], ", reference has ", ref[g.idx(s, aa, vv, tt, k)]);
+      break;
+    }
+    default: {
+      ViewSegmentNumbers basic(v, s, k);
+      symm->find_basic_view_segment_numbers(basic);
+      basic.timing_pos_num() = k;
+      // (the TOF index is always passed explicitly: the defaulted argument is known finding N2)
+      const RelatedViewgrams<float> rv = r.get_related_viewgrams(basic, symm, false, k);
+      int nrel = 0;
+      bool has_requested = false;
+      for (auto itv = rv.begin(); itv != rv.end(); ++itv, ++nrel)
+        {
+          const int vv = itv->get_view_num(), sv = itv->get_segment_num();
+          VF_CHECK(itv->get_timing_pos_num() == k, where, ": related viewgram has TOF index ", itv->get_timing_pos_num());
+          VF_CHECK(sv >= g.min_seg && sv <= g.max_seg && vv >= g.min_view && vv <= g.max_view, where, ": related viewgram outside the data");
+          has_requested = has_requested || (vv == v && sv == s);
+          for (int aa = g.minax(sv); aa <= g.maxax(sv); ++aa)
+            for (int tt = g.min_tang; tt <= g.max_tang; ++tt)
+              VF_CHECK((*itv)[aa][tt] == ref[g.idx(sv, aa, vv, tt, k)], where, ": get_related_viewgrams: bin ", g.name(sv, aa, vv, tt, k), " = ",
+                       (*itv)[aa][tt], ", reference has ", ref[g.idx(sv, aa, vv, tt, k)]);
+        }
+      VF_CHECK(has_requested, where, ": the related set does not contain the requested viewgram");
+      exact_after = nrel == 1; // (the order in which a set of several viewgrams is read is not documented)
+      break;
+    }
+    }
+  q.cur_start = it.start;
+  q.cur_end = it.end;
+  q.exact = exact_after;
+  q.wrote_last = false;
+  q.read_clock = ++clock_;
+  if (!continues)
+    q.run_clock = q.read_clock;
+  (void)opno;
+  return Result::pass();
+}
+
+Result
+Run::op_xwrite(const json& op, std::size_t opno, const std::string& tag)
+{
+  if (!file_backed() || peers.empty())
+    return Result::pass();
+  const Geo& g = geo();
+  const long V = op[6].get<long>();
+  std::size_t wi = slot_to_peer(V % 4);
+  if (wi != 0)
+    { // a reader in that slot: the next long-lived object that can write, else the object under test
+      std::size_t cand = wi;
+      for (std::size_t tries = 0; tries + 1 < peers.size() && !peers[cand].can_write; ++tries)
+        cand = 1 + cand % (peers.size() - 1);
+      wi = peers[cand].can_write ? cand : 0;
+    }
+  Peer& w = peers[wi];
+  const int kind = int((V / 4) % 8) % N_ITEM_KINDS;
+  const int mode = int((V / 32) % 8) % N_ADDR_MODES;
+  const std::size_t ti = (V / 1024) % 2 ? wi : slot_to_peer((V / 256) % 4);
+  const Item it = resolve_item(kind, mode, peers[ti], op);
+  const int s = it.s, a = it.a, v = it.v, t = it.t, k = it.k;
+  vf::SplitMix rng(c["seed"].get<uint64_t>() * 1000003ULL + uint64_t(V) * 7919ULL + opno + 0x77ULL);
+  auto& st = vf::stats();
+  st.count(std::string("item writes through: ") + peer_kind_names[w.kind + 1]);
+  st.count(std::string("item writes of kind: ") + item_kind_names[kind] + " / " + addr_mode_names[mode]);
+  if (wi != 0)
+    st.count("writes by a second writer object on the same file");
+  if (w.wrote_last && it.start == w.cur_end)
+    st.count("item writes directly behind the same object's previous write");
+  const std::string what
+      = vf::cat(tag, " write ", item_kind_names[kind], " (seg=", s, ",ax=", a, ",view=", v, ",tang=", t, ",tof=", k, ") [", addr_mode_names[mode],
+                " w.r.t. peer ", ti, "] through peer ", wi, " = ", peer_kind_names[w.kind + 1], " (bytes ", it.start, "..", it.end, ")");
+  ProjData& p = *w.p;
+  switch (kind)
+    {
+    case IK_BIN: {
+      const float x = value(rng);
+      w.f->set_bin_value(Bin(s, v, a, t, k, x));
+      ref[g.idx(s, a, v, t, k)] = x;
+      break;
+    }
+    case IK_VIEWGRAM: {
+      Viewgram<float> vw = V % 2 ? p.get_empty_viewgram(v, s, false, k) : Viewgram<float>(pdi, ViewgramIndices(v, s, k));
+      for (int aa = g.minax(s); aa <= g.maxax(s); ++aa)
+        for (int tt = g.min_tang; tt <= g.max_tang; ++tt)
+          ref[g.idx(s, aa, v, tt, k)] = vw[aa][tt] = value(rng);
+      VF_CHECK(p.set_viewgram(vw) == Succeeded::yes, what, ": set_viewgram returned Succeeded::no");
+      break;
+    }
+    case IK_SINOGRAM: {
+      Sinogram<float> sn = V % 2 ? p.get_empty_sinogram(a, s, false, k) : Sinogram<float>(pdi, SinogramIndices(a, s, k));
+      for (int vv = g.min_view; vv <= g.max_view; ++vv)
+        for (int tt = g.min_tang; tt <= g.max_tang; ++tt)
+          ref[g.idx(s, a, vv, tt, k)] = sn[vv][tt] = value(rng);
+      VF_CHECK(p.set_sinogram(sn) == Succeeded::yes, what, ": set_sinogram returned Succeeded::no");
+      break;
+    }
+    case IK_SEG_VIEW: {
+      SegmentByView<float> sg = p.get_empty_segment_by_view(s, false, k);
+      for (int vv = g.min_view; vv <= g.max_view; ++vv)
+        for (int aa = g.minax(s); aa <= g.maxax(s); ++aa)
+          for (int tt = g.min_tang; tt <= g.max_tang; ++tt)
+            ref[g.idx(s, aa, vv, tt, k)] = sg[vv][aa][tt] = value(rng);
+      VF_CHECK(p.set_segment(sg) == Succeeded::yes, what, ": set_segment(by view) returned Succeeded::no");
+      break;
+    }
+    case IK_SEG_SINO: {
+      SegmentBySinogram<float> sg = p.get_empty_segment_by_sinogram(s, false, k);
+      for (int aa = g.minax(s); aa <= g.maxax(s); ++aa)
+        for (int vv = g.min_view; vv <= g.max_view; ++vv)
+          for (int tt = g.min_tang; tt <= g.max_tang; ++tt)
+            ref[g.idx(s, aa, vv, tt, k)] = sg[aa][vv][tt] = value(rng);
+      VF_CHECK(p.set_segment(sg) == Succeeded::yes, what, ": set_segment(by sinogram) returned Succeeded::no");
+      break;
+    }
+    default: {
+      ViewSegmentNumbers basic(v, s, k);
+      symm->find_basic_view_segment_numbers(basic);
+      basic.timing_pos_num() = k;
+      RelatedViewgrams<float> rv = p.get_empty_related_viewgrams(basic, symm, false, k);
+      for (auto itv = rv.begin(); itv != rv.end(); ++itv)
+        {
+          const int vv = itv->get_view_num(), sv = itv->get_segment_num();
+          VF_CHECK(itv->get_timing_pos_num() == k, what, ": empty related viewgram has TOF index ", itv->get_timing_pos_num());
+          VF_CHECK(sv >= g.min_seg && sv <= g.max_seg && vv >= g.min_view && vv <= g.max_view, what, ": related viewgram outside the data");
+          for (int aa = g.minax(sv); aa <= g.maxax(sv); ++aa)
+            for (int tt = g.min_tang; tt <= g.max_tang; ++tt)
+              ref[g.idx(sv, aa, vv, tt, k)] = (*itv)[aa][tt] = value(rng);
+        }
+      VF_CHECK(p.set_related_viewgrams(rv) == Succeeded::yes, what, ": set_related_viewgrams returned Succeeded::no");
+      break;
+    }
+    }
+  // the write call has returned.  The looks that follow do not use the stream of any OTHER long-lived object (their
+  // read-ahead state is what the next operations are about): raw bytes through a fresh ifstream, then the whole data
+  // set through a freshly opened reader or through the writing object itself.
+  w.cur_start = it.start;
+  w.cur_end = it.end;
+  w.exact = false;
+  w.wrote_last = true;
+  ++nwrites;
+  mark_written(int(wi));
+  C02_TRY(check_bytes(what));
+  const int sel = op[7].get<int>();
+  const int path = sel % N_PATHS;
+  bool fresh = (sel / N_PATHS) % 3 == 0 || !w.can_read;
+  if (fresh && !can_second_reader())
+    {
+      if (!w.can_read)
+        return Result::pass();
+      fresh = false;
+    }
+  if (fresh)
+    {
+      shared_ptr<ProjData> other = second_reader();
+      vf::stats().count("read-backs through a second object on the same file");
+      return compare_object(*other, path, what + " [second object from read_from_file]");
+    }
+  return compare_object(p, path, what + " [the writing object]");
+}
+
 // ---- out-of-range requests ---------------------------------------------------------------------------
 // One index one step outside its range, through each path that takes that index.  Decided with asserts off
 // (what a Release build does, DESIGN.md 2.3): the request must be reported (std::exception from error()/at(), or
@@ -1499,7 +2031,21 @@ check(const json& c)
   r = run.check_bytes("end of history");
   if (r.kind != Result::PASS)
     return r;
-  return run.compare_all(int(c["seed"].get<uint64_t>() % (3 * N_PATHS)), "end of history");
+  r = run.compare_all(int(c["seed"].get<uint64_t>() % (3 * N_PATHS)), "end of history");
+  if (r.kind != Result::PASS)
+    return r;
+  // ... and through every long-lived object (open since the start of the history)
+  for (std::size_t i = 1; i < run.peers.size(); ++i)
+    {
+      st.cls(std::string("history with a ") + peer_kind_names[run.peers[i].kind + 1]);
+      r = run.compare_object(*run.peers[i].p, int((c["seed"].get<uint64_t>() / 7 + i) % (N_PATHS - 1)),
+                             vf::cat("end of history [peer ", i, " = ", peer_kind_names[run.peers[i].kind + 1], ", opened at the start of the history]"));
+      if (r.kind != Result::PASS)
+        return r;
+    }
+  if (run.peers.size() > 1)
+    st.cls("history with long-lived objects on the same file");
+  return r;
 }
 
 // ---- generator -------------------------------------------------------------------------------------
@@ -1675,13 +2221,107 @@ gen(Src& s, int size)
                                           W_RELATED,  W_RELATED,  W_FILL_VALUE, W_FILL_OTHER, W_ITER,  W_ARITH,     R_BIN,      R_VIEWGRAM, R_SINOGRAM,
                                           R_SEG_VIEW, R_SEG_SINO, R_RELATED, R_SUBSET,   R_ITER,     R_ALL,       E_OOB,      E_OOB,      E_OOB,
                                           E_OOB,      H_HEADER,   H_WRITE_TO_FILE };
-  json ops = json::array();
-  for (long i = 0; i < nops; ++i)
+  // long-lived objects on the same file (file-backed cases): 1-3 readers / second writers that stay open for the
+  // whole history; a tenth of the file-backed cases keeps the original shape
+  json readers = json::array();
+  if (backing >= B_FSTREAM && s.chance(9, 10))
     {
+      const long nr = s.pick(std::vector<long>{ 1, 1, 2, 2, 2, 3 });
+      for (long i = 0; i < nr; ++i)
+        readers.push_back(s.pick(std::vector<int>{ PK_HDR_RO, PK_HDR_RO, PK_HDR_RO, PK_STREAM_RO, PK_STREAM_RO, PK_STREAM_RO, PK_HDR_RW, PK_HDR_RW,
+                                                    PK_STREAM_RW, PK_STREAM_RW }));
+    }
+  c["readers"] = readers;
+  const bool xops = !readers.empty();
+  json ops = json::array();
+  auto plain_op = [&](int code, long v) {
+    ops.push_back({ code, s.range(0, 999), s.range(0, 999), s.range(0, 999), s.range(0, 999), s.range(0, 999), v, s.range(0, 47) });
+  };
+  const long SELF = 4; // target: the object that does the operation
+  auto X = [&](int code, long peer, long kind, long mode, long target) { plain_op(code, peer + 4 * kind + 32 * mode + 256 * target); };
+  // a long-lived object (1..3) three times out of four, else the object under test (0)
+  auto a_reader = [&]() -> long { return s.chance(3, 4) ? s.range(1, 3) : 0; };
+  // the object under test writes two times out of three, else whatever sits in slot 1..3 (a reader there: the object under test)
+  auto a_writer = [&]() -> long { return s.chance(2, 3) ? 0 : s.range(1, 3); };
+  auto a_kind = [&]() -> long { return s.chance(1, 3) ? IK_BIN : s.range(0, N_ITEM_KINDS - 1); };
+  while (long(ops.size()) < nops)
+    {
+      if (xops && s.chance(2, 5))
+        {
+          // interleavings of reads through long-lived objects with writes next to them in the FILE
+          const long r = a_reader(), w = a_writer();
+          const long K = a_kind();
+          const bool same_kind = s.coin();
+          auto kind = [&]() -> long { return same_kind ? K : a_kind(); };
+          switch (s.range(0, 7))
+            {
+            case 0: // reader reads k, writer writes k+1, reader reads k+1
+              X(X_READ, r, K, s.chance(1, 3) ? AM_NEXT : AM_ABS, r);
+              X(X_WRITE, w, kind(), AM_NEXT, r);
+              X(X_READ, r, kind(), AM_NEXT, r);
+              break;
+            case 1: // writer writes k / k-1 / far away, reader reads k again or goes on
+              X(X_READ, r, K, AM_ABS, r);
+              X(X_WRITE, w, kind(), s.pick(std::vector<long>{ AM_SAME, AM_SAME, AM_PREV, AM_FAR }), r);
+              X(X_READ, r, kind(), s.pick(std::vector<long>{ AM_SAME, AM_SAME, AM_PREV, AM_NEXT }), r);
+              break;
+            case 2: { // a walk through the file: the writer stays one item ahead of the reader
+              X(X_READ, r, K, AM_ABS, r);
+              const long steps = s.range(2, 3);
+              for (long i = 0; i < steps; ++i)
+                {
+                  X(X_WRITE, w, kind(), AM_NEXT, r);
+                  X(X_READ, r, kind(), AM_NEXT, r);
+                }
+              break;
+            }
+            case 3: { // reader after reader: a second object looks at the item first, through another path
+              const long r2 = a_reader();
+              X(X_READ, r, K, AM_ABS, r);
+              X(X_WRITE, w, kind(), AM_NEXT, r);
+              X(X_READ, r2, a_kind(), AM_NEXT, r);
+              X(X_READ, r, kind(), AM_NEXT, r);
+              break;
+            }
+            case 4: { // two writers alternating on one file, then each reads what the other wrote
+              const long w2 = s.range(1, 3);
+              X(X_WRITE, 0, K, AM_ABS, 0);
+              X(X_WRITE, w2, kind(), s.pick(std::vector<long>{ AM_NEXT, AM_NEXT, AM_SAME, AM_PREV }), 0);
+              X(X_READ, 0, kind(), s.pick(std::vector<long>{ AM_NEXT, AM_SAME }), w2);
+              X(X_WRITE, 0, kind(), AM_NEXT, w2);
+              X(X_READ, w2, kind(), AM_NEXT, w2);
+              break;
+            }
+            case 5: // reader reads k, writer writes k+2, reader reads k+1 and then k+2 (reader after reader on the same object)
+              X(X_READ, r, K, AM_ABS, r);
+              X(X_WRITE, w, K, AM_NEXT2, r);
+              X(X_READ, r, K, AM_NEXT, r);
+              X(X_READ, r, kind(), AM_NEXT, r);
+              break;
+            case 6: { // one writer writes k, k+1, k+2 in a row (each call returns first), a reader looks at the last ones
+              X(X_WRITE, w, K, AM_ABS, SELF);
+              X(X_WRITE, w, K, AM_NEXT, SELF);
+              if (s.coin())
+                X(X_WRITE, w, K, AM_NEXT, SELF);
+              X(X_READ, r, kind(), s.coin() ? AM_SAME : AM_PREV, w);
+              break;
+            }
+            default: // the object under test reads, another object writes next to it, the object under test reads on
+              X(X_READ, 0, K, AM_ABS, 0);
+              X(X_WRITE, s.range(1, 3), kind(), s.pick(std::vector<long>{ AM_NEXT, AM_NEXT, AM_SAME }), 0);
+              X(X_READ, 0, kind(), s.pick(std::vector<long>{ AM_NEXT, AM_NEXT, AM_SAME }), 0);
+              break;
+            }
+          continue;
+        }
+      if (xops && s.chance(1, 6))
+        { // single item operations with any addressing
+          X(s.coin() ? X_READ : X_WRITE, s.range(0, 3), a_kind(), s.range(0, N_ADDR_MODES - 1), s.range(0, 3));
+          continue;
+        }
       const int code = s.pick(codes);
       // (for E_OOB, v selects path x index kind x direction uniformly: no class of out-of-range request is excluded)
-      const long v = s.range(0, 999);
-      ops.push_back({ code, s.range(0, 999), s.range(0, 999), s.range(0, 999), s.range(0, 999), s.range(0, 999), v, s.range(0, 47) });
+      plain_op(code, s.range(0, 999));
     }
   c["ops"] = ops;
   return c;
@@ -1725,7 +2365,23 @@ nontrivial(const json& c)
   int last_write = -1;
   for (auto& op : c["ops"])
     {
-      const int code = op[0].get<int>();
+      int code = op[0].get<int>();
+      if (code == X_WRITE || code == X_READ)
+        { // single items through one of the objects on the file: the family is the item kind
+          if (c["backing"].get<int>() < B_FSTREAM)
+            continue; // (no-ops there)
+          const int fam = W_BIN + int((op[6].get<long>() / 4) % 8) % N_ITEM_KINDS;
+          if (code == X_WRITE)
+            {
+              wfam.insert(fam);
+              last_write = fam;
+              if (family_of_path(op[7].get<int>()) != last_write)
+                cross_read = true;
+            }
+          else if (last_write >= 0 && fam != last_write)
+            cross_read = true;
+          continue;
+        }
       if (code >= W_BIN && code <= W_ARITH)
         {
           wfam.insert(family_of_write(code));
